@@ -26,7 +26,7 @@ def trRes (s : St) (r : Res) : String :=
     | some cn => s!"W{id}:{hex cn.addr}:{if cn.tls then 1 else 0}"
     | none => s!"W{id}:?"
 
-/-- ops: N addr tls cfgOk | C first scheme host keep cfgOk | H first i scheme keep | R scheme keep.
+/-- ops: N addr tls cfgOk | C first scheme host keep cfgOk | H first i scheme keep | R scheme keep | K.
     `first` = 0 marks a later hop of a redirect chain: it only happens if the previous hop wrote its request.
     R is a further ATTEMPT of the same HostClient.Do call (the previous attempt failed after its write and a retry
     hook rewrote the request): one more `hcDo` on the HostClient the previous op used, only if that op wrote. -/
@@ -53,6 +53,10 @@ def trRun : St → Bool → Option Nat → List Bytes → List String → Option
     else
       let r := hcDo trDialOk s i scheme keep
       trRun r.1 (match r.2 with | .wrote _ => true | _ => false) (some i) rest (trRes r.1 r.2 :: acc)
+  | s, _, _, [75] :: rest, acc =>
+    -- K: CloseIdleConnections on the Client and on every caller-made HostClient
+    let s' := (List.range s.hcs.length).foldl (fun st i => (step trDialOk st (.closeIdle i)).1) s
+    trRun s' false none rest ("-" :: acc)
   | s, prev, last, [82] :: scheme :: keep :: rest, acc => do
     let keep ← trFlag? keep
     match prev, last with
